@@ -25,6 +25,8 @@
 //     or send outside a select, ranging over a channel, a select without default (one wait for the whole statement).  The
 //     contracts let a wait "acquire" the registry locks (it may depend on another goroutine that needs them), so a wait must not
 //     happen while Broker.lock or a graph's threshold lock is held.
+//   * reading the wall clock (time.Now, time.Since, time.Until) -> Rd of the pseudo field "<receiver type>.clock!" (package
+//     functions: "<pkg>.clock!"): a type whose contract guards it (FileSink) must read the clock under its lock.
 //   * go statements -> Go; immediately invoked literals -> Block; literals passed as arguments -> Loop (Block ..) after
 //     the call (run by the callee zero or more times, synchronously); other literals become functions of their own.
 //   * if / switch / select -> Alt (all case guards first); for / range -> Loop; break / continue -> Brk n.
@@ -78,6 +80,8 @@ type tr struct {
 	alias map[types.Object]string
 	// translating the communication of a select arm: the wait is accounted for once, by the select itself
 	inComm bool
+	// "pkg.Type" of the receiver of the enclosing declared method, or "pkg" for a plain function
+	owner string
 }
 
 type output struct {
@@ -449,7 +453,7 @@ func (t *tr) expr(e ast.Node, out *[]string) {
 func (t *tr) closure(fl *ast.FuncLit) {
 	t.nlit++
 	name := fmt.Sprintf("%s$lit%d", t.base, t.nlit)
-	sub := &tr{p: t.p, info: t.info, fset: t.fset, fn: name, out: t.out, base: name, alias: t.alias}
+	sub := &tr{p: t.p, info: t.info, fset: t.fset, fn: name, out: t.out, base: name, alias: t.alias, owner: t.owner}
 	body := sub.block(fl.Body)
 	t.out.addFunc(name, body, true, t.fset.Position(fl.Pos()).String())
 	if len(sub.rops) > 0 {
@@ -589,6 +593,9 @@ func (t *tr) call(c *ast.CallExpr, out *[]string) {
 					external = true
 				case strings.HasSuffix(full, "pointerstructure.Set"):
 					t.wr(c, "payload-graph", out)
+					external = true
+				case full == "time.Now" || full == "time.Since" || full == "time.Until":
+					t.rd(c, t.owner+".clock!", out, false)
 					external = true
 				case short(pn.Imported().Path()) != "":
 					if _, isFunc := t.info.Uses[f.Sel].(*types.Func); isFunc {
@@ -985,12 +992,14 @@ func main() {
 				}
 				name := short(p.PkgPath) + "." + fd.Name.Name
 				exported := fd.Name.IsExported()
+				recvOwner := short(p.PkgPath)
 				if fd.Recv != nil && len(fd.Recv.List) > 0 {
 					if owner, ok := tracked(p.TypesInfo.TypeOf(fd.Recv.List[0].Type)); ok {
 						name = owner + "." + fd.Name.Name
+						recvOwner = owner
 					}
 				}
-				t := &tr{p: p, info: p.TypesInfo, fset: fset, fn: name, out: out, base: name}
+				t := &tr{p: p, info: p.TypesInfo, fset: fset, fn: name, out: out, base: name, owner: recvOwner}
 				t.collectAliases(fd.Body)
 				body := t.block(fd.Body)
 				out.addFunc(name, body, exported, fset.Position(fd.Pos()).String())
